@@ -839,7 +839,7 @@ func buildParts(c *vx.Check) []part {
 			basesSkipped = append(basesSkipped, err.Error())
 			continue
 		}
-		muts := genericMutations(tree)
+		muts := genericMutations(tree, th)
 		if b.Batch {
 			muts = append(muts, batchSpecificMutations(tree)...)
 		}
@@ -927,7 +927,7 @@ func TestVerifC18(t *testing.T) {
 		os.Exit(2)
 	}
 
-	deadline := c.DeadlineAfter(150*time.Second, 22*time.Minute)
+	deadline := c.DeadlineAfter(160*time.Second, 22*time.Minute)
 	var vparts []vx.Part
 	clause := map[string]int64{}
 	reqKinds := map[string]int64{}
